@@ -235,7 +235,7 @@ def main():
         trusted_base=TRUSTED_BASE_COMMON + list(getattr(mod, "TRUSTED", [])),
         theorems=list(mod.THEOREMS),
         evaluations=ctx.evaluations, distinct_nontrivial=len(ctx.distinct),
-        rule=getattr(mod, "RULE", ""), samples=ctx.samples[:8],
+        rule=getattr(mod, "RULE", "") + ((" " + mod.pipeline.STREAMS_NOTE) if hasattr(mod, "pipeline") and hasattr(mod.pipeline, "STREAMS_NOTE") else ""), samples=ctx.samples[:8],
         input_distribution=ctx.dist, exhaustive=bool(ctx.notes.get("exhaustive", False)),
         details=details, notes=ctx.notes,
         problems=[dict(kind=p["kind"], what=p["what"]) for p in ctx.problems][:20],
